@@ -56,16 +56,18 @@ def f_sum(rows, wl, wr):
 
 
 def f_gap(g):
+    """gap grouping as in Lean `gapGroups` / `summarize`: a row joins the group of its predecessor iff it starts at most
+    g after the predecessor ENDS; the output row spans the group (first start, latest end)"""
     def f(rows, wl, wr):
         out = []
-        cur = None
+        cur = None          # [start, latest end, first id, members, end of the last member]
         for a, b, i in rows:
-            if cur is not None and a - cur[1] <= g:
-                cur = [cur[0], max(cur[1], b), cur[2], cur[3] + 1]
+            if cur is not None and a - cur[4] <= g:
+                cur = [cur[0], max(cur[1], b), cur[2], cur[3] + 1, b]
             else:
                 if cur is not None:
                     out.append((cur[0], cur[1], cur[2] * 100 + cur[3]))
-                cur = [a, b, i, 1]
+                cur = [a, b, i, 1, b]
         if cur is not None:
             out.append((cur[0], cur[1], cur[2] * 100 + cur[3]))
         return out
@@ -678,7 +680,7 @@ def run(ctx):
         return xs if len(xs) <= n else rng.sample(xs, n)
 
     ecases = []
-    for name, n in (("exhaustive", ctx.pick(1500, 12000)), ("single", ctx.pick(1500, 12000)), ("multi", ctx.pick(700, 6000)),
+    for name, n in (("exhaustive", ctx.pick(1000, 12000)), ("single", ctx.pick(1000, 12000)), ("multi", ctx.pick(700, 6000)),
                     ("batches", ctx.pick(300, 2500))):
         for c in sample(pool[name], n):
             ecases.append(shifted(c, EPOCH_T0 + rng.choice([137, 1, 255, 257, 2 ** 20 + 3, rng.randrange(1, 10 ** 9)])))
@@ -686,7 +688,7 @@ def run(ctx):
     ctx.correspond("iter/epoch", ecases, impl_iter, op_iter, oracle_run, nontrivial=nontrivial,
                    rule="a sample of iter/exhaustive, iter/single, iter/multi, iter/batches with every chunk bound and row time shifted by 1.7e18 + an odd offset (ns-since-epoch scale, beyond 2**53): same ops to the driver, same oracle",
                    branch=branch_of, in_hyp=lambda c, o: stream_ok(c["chunks"]))
-    ccases = [shifted(c, EPOCH_T0 + rng.choice([137, 255, rng.randrange(1, 10 ** 9)])) for c in sample(pool["context"], ctx.pick(250, 2000))]
+    ccases = [shifted(c, EPOCH_T0 + rng.choice([137, 255, rng.randrange(1, 10 ** 9)])) for c in sample(pool["context"], ctx.pick(200, 2000))]
     ctx.correspond("context/epoch", ccases, impl_ctx, op_iter, oracle_run, nontrivial=nontrivial,
                    rule="a sample of the `context` cases (both processors) shifted to epoch-scale times",
                    branch=lambda c, o: c["proc"] + ":" + ("err" if o.startswith("err") else "ok"))
